@@ -111,7 +111,7 @@ def _term(rng, depth, in_tail=False):
         name = _atom_name(rng)
         if name == ".":
             name = "dot"
-        n = rng.choice([1, 1, 2, 2, 3, 4])
+        n = rng.choice([0, 1, 1, 2, 2, 3, 4])
         return ("fun", name, tuple(_term(rng, depth - 1) for _ in range(n)))
     # list shapes
     shape = rng.choice(["[a]", "[a,b,c]", "[H|T]", "[a,b|T]", "[a,b]", "[_|_]"])
@@ -323,7 +323,7 @@ def build_api(yp, t, varmap, rng):
             return yp.makelist([build_api(yp, i, varmap, rng) for i in items])
         return yp.listpair(build_api(yp, args[0], varmap, rng), build_api(yp, args[1], varmap, rng))
     eargs = [build_api(yp, a, varmap, rng) for a in args]
-    if len(eargs) <= 3 and rng.random() < 0.3:
+    if 1 <= len(eargs) <= 3 and rng.random() < 0.3:
         return getattr(yp, "functor%d" % len(eargs))(name, *eargs)
     return yp.functor(name, eargs)
 
